@@ -152,6 +152,9 @@ def with_numpy(d: dict) -> dict:
     return {k: (np.array(v) if isinstance(v, list) else v) for k, v in d.items()}
 
 
+_SHARED: dict = {}
+
+
 def oracle_routes(ctx: Ctx, case: dict, d: dict, fl: str, suffix: str = "") -> None:
     from dictIO import DictReader, DictWriter, SDict
     exp = expected(d, fl)
@@ -167,6 +170,18 @@ def oracle_routes(ctx: Ctx, case: dict, d: dict, fl: str, suffix: str = "") -> N
     if not same(r1, exp):
         ctx.violation("route formatter+parser: read back differs from what was written", case, enc(r1), enc(exp),
                       replay={**case, "route": 1})
+    # one formatter and one parser object used for every case of the run (state carried between calls)
+    try:
+        if fl not in _SHARED:
+            _SHARED[fl] = (formatter(fl), parser(fl))
+        ts = _SHARED[fl][0].to_string(copy.deepcopy(d))
+        reset_globals()
+        rs = impl.plain(_SHARED[fl][1].parse_string(text, SDict()))
+    except Exception as e:  # noqa: BLE001
+        ctx.violation("a formatter / parser object that is used again raises", case, repr(e), enc(exp)); return
+    if ts != text or not same(rs, r1):
+        ctx.violation("a formatter / parser object that was used before behaves differently from a fresh one", case,
+                      {"text": ts, "read": enc(rs)}, {"text": text, "read": enc(r1)})
     # route 2: DictWriter + DictReader
     try:
         with impl.scratch() as td:
